@@ -102,7 +102,7 @@ def main():
                         d = abs(cplx(va) - cplx(vb))
                         if eps == 0 and va != vb:
                             bad = "eps = 0 changed G_%d%d(%s): %s -> %s" % (a["i"], a["j"], x, va, vb)
-                        elif d > 2 * eps * dim / imz + 1e-12:
+                        elif not (d <= 2 * eps * dim / imz + 1e-12):
                             bad = "|G_trunc - G| = %g for G_%d%d(%s) exceeds 2 eps dim / |Im z| = %g" % (d, a["i"], a["j"], x, 2 * eps * dim / imz)
             ch_f, ch_c = get("chi", "full"), get("chi", cut)
             for a, b in zip(ch_f["chi"], ch_c["chi"]):
@@ -110,7 +110,7 @@ def main():
                     d = abs(cplx(va) - cplx(vb))
                     if eps == 0 and va != vb:
                         bad = "eps = 0 changed chi_%s%s: %s -> %s" % (a["q"], t, va, vb)
-                    elif d > eps * dim * (beta ** 3 + 1) + 1e-12:
+                    elif not (d <= eps * dim * (beta ** 3 + 1) + 1e-12):
                         bad = "|chi_trunc - chi| = %g for %s%s exceeds eps dim beta^3 = %g" % (d, a["q"], t, eps * dim * beta ** 3)
             su_f, su_c = get("sus", "full"), get("sus", cut)
             for a, b in zip(su_f["sus"], su_c["sus"]):
@@ -119,14 +119,14 @@ def main():
                     bound = 2 * eps * dim * max(beta, beta / (2 * 3.141592653589793 * abs(n)) if n else beta)
                     if eps == 0 and va != vb:
                         bad = "eps = 0 changed the susceptibility %s at W_%d" % (a["q"], n)
-                    elif d > bound + 1e-12:
+                    elif not (d <= bound + 1e-12):
                         bad = "|sus_trunc - sus| = %g for %s at W_%d exceeds %g" % (d, a["q"], n, bound)
             dm_f, dm_c = get("dm", "full"), get("dm", cut)
             for (i, j, va), (_, _, vb) in zip(dm_f["avg"], dm_c["avg"]):
                 d = abs(cplx(va) - cplx(vb))
                 if eps == 0 and va != vb:
                     bad = "eps = 0 changed <c+_%d c_%d>" % (i, j)
-                elif d > eps * dim + 1e-13:
+                elif not (d <= eps * dim + 1e-13):
                     bad = "|avg_trunc - avg| = %g for <c+_%d c_%d> exceeds eps dim = %g" % (d, i, j, eps * dim)
             if bad:
                 c.violation("%s: after truncation step %d (eps = %s): %s" % (s["id"], k, eps_s, bad), rep, cls="value")
